@@ -79,6 +79,18 @@ class Opaque:
         return hash(("Opaque", self.text))
 
 
+class Arr(list):
+    """array.array('b' | 'B', ...): a list of its items that remembers the type code (buffer protocol: tobytes(),
+    bytes(a), translate tables)"""
+
+    def __init__(self, tc, items):
+        list.__init__(self, items)
+        self.tc = tc
+
+    def tobytes(self):
+        return bytes(x & 0xff for x in self)
+
+
 class ClassRef:
     def __init__(self, ci):
         self.ci = ci
@@ -272,6 +284,8 @@ class Ev:
         key = ast.unparse(n)
         if key in self.env:
             return self.env[key]
+        if key in _LIB_CONSTS and key.split(".")[0] not in self.env:
+            return _LIB_CONSTS[key]
         if isinstance(n.value, ast.Name) and n.value.id in ("self", "cls") and \
                 n.value.id not in self.env:
             if self.self_cls is None:
@@ -577,11 +591,14 @@ class Ev:
             rng = {"b": (-128, 127), "B": (0, 255)}.get(tc)
             if rng is None:
                 raise Unknown("array typecode")
+            if isinstance(items, (bytes, bytearray)):
+                # a bytes-like initialiser is raw machine data: octets are reinterpreted, not range-checked
+                return Arr(tc, [(x - 256 if (tc == "b" and x >= 128) else x) for x in items])
             items = list(items)
             for x in items:
                 if not (isinstance(x, int) and rng[0] <= x <= rng[1]):
                     raise Raised("OverflowError", n)
-            return items
+            return Arr(tc, items)
         if fname == "int.from_bytes":
             return int.from_bytes(*args, **kw)
         # instance method of the object under evaluation: self.helper(...)
@@ -608,6 +625,9 @@ class Ev:
         if isinstance(f, tuple) and f and f[0] == "builtin" and f[1] in ("list", "tuple", "sorted") \
                 and len(args) == 1 and isinstance(args[0], ClassRef) and self.is_enum(args[0].ci):
             return list(self.enum_members(args[0].ci))
+        if isinstance(f, tuple) and f and f[0] == "builtin" and f[1] in ("bytes", "bytearray") and len(args) == 1 \
+                and isinstance(args[0], Arr) and not kw:
+            return _SAFE_BUILTINS[f[1]](args[0].tobytes())          # buffer protocol
         if isinstance(f, tuple) and f and f[0] == "builtin":
             try:
                 return _SAFE_BUILTINS[f[1]](*args, **kw)
@@ -629,7 +649,10 @@ class Ev:
             raise Unknown("instance method call")
         if isinstance(f, ClassRef):
             if f.ci.name in self.hooks:
-                return self.hooks[f.ci.name](args)
+                h_ = self.hooks[f.ci.name]
+                if getattr(h_, "wants_kw", False):
+                    return h_(args, kw)
+                return h_(args)
             if self.is_enum(f.ci):
                 raise Unknown("enum lookup by value %s" % f.ci.name)
             return Instance(f.ci)           # an object of that class; nothing but its class is known
@@ -661,6 +684,18 @@ class Ev:
                 return recv.to_bytes(*args, **kw)
             except OverflowError:
                 raise Raised("OverflowError", n)
+        if isinstance(recv, Arr) and name == "tobytes" and not args and not kw:
+            return recv.tobytes()
+        if isinstance(recv, (bytes, bytearray)) and name == "translate" and len(args) == 1 and not kw:
+            tab = args[0]
+            if isinstance(tab, Arr):
+                tab = tab.tobytes()
+            elif isinstance(tab, list) and len(tab) == 256 and all(isinstance(x, int) and -128 <= x <= 255 for x in tab):
+                tab = bytes(x & 0xff for x in tab)
+            try:
+                return recv.translate(tab)
+            except (ValueError, TypeError) as e:
+                raise Raised(type(e).__name__, n)
         if isinstance(recv, (bytes, bytearray)) and name in ("hex", "translate"):
             return getattr(recv, name)(*args, **kw)
         if isinstance(recv, (list, tuple)) and name in ("index", "count"):
@@ -860,6 +895,19 @@ class Ev:
             if not ok:
                 raise Raised("AssertionError", st)
             return _FALL
+        if isinstance(st, ast.Try) and st.finalbody:
+            inner = ast.Try(body=st.body, handlers=st.handlers, orelse=st.orelse, finalbody=[])
+            pending = None
+            try:
+                r = self.run_stmt(inner) if (st.handlers or st.orelse) else self.run_block(st.body)
+            except Raised as e:
+                pending, r = e, _FALL
+            rf = self.run_block(st.finalbody)
+            if rf is not _FALL:
+                return rf           # a return / break in `finally` replaces whatever was pending
+            if pending is not None:
+                raise pending
+            return r
         if isinstance(st, ast.Try) and not st.finalbody:
             try:
                 r = self.run_block(st.body)
@@ -882,6 +930,7 @@ class Ev:
         raise Unknown("stmt %s" % type(st).__name__)
 
 
+_LIB_CONSTS = {"os.SEEK_SET": 0, "os.SEEK_CUR": 1, "os.SEEK_END": 2, "io.SEEK_SET": 0, "io.SEEK_CUR": 1, "io.SEEK_END": 2}
 _FALL = object()
 _BUILDING = object()
 _CONT = object()
